@@ -14,7 +14,6 @@ use std::{
     alloc::{GlobalAlloc, Layout, System},
     cell::Cell,
     collections::BTreeMap,
-    sync::atomic::{AtomicUsize, Ordering},
 };
 
 // ---------------------------------------------------------------------------------------
@@ -90,22 +89,19 @@ pub fn measure<R>(f: impl FnOnce() -> R) -> (R, usize) {
 // crash reporter
 // ---------------------------------------------------------------------------------------
 
-const CASE_CAP: usize = 1 << 16;
-static mut CASE_NAME: [u8; 256] = [0; 256];
-static CASE_NAME_LEN: AtomicUsize = AtomicUsize::new(0);
-static mut CASE_INPUT: [u8; CASE_CAP] = [0; CASE_CAP];
-static CASE_INPUT_LEN: AtomicUsize = AtomicUsize::new(0);
+thread_local! {
+    /// (name ptr, name len, input ptr, input len) of what this thread is decoding right now;
+    /// the pointed-to data outlives the decode call.
+    static CASE: Cell<(usize, usize, usize, usize)> = const { Cell::new((0, 0, 0, 0)) };
+}
 
-/// Record what is about to be decoded (workers are single-threaded).
+/// Record what is about to be decoded on this thread.
 pub fn set_case(name: &str, input: &[u8]) {
-    unsafe {
-        let n = name.len().min(256);
-        std::ptr::copy_nonoverlapping(name.as_ptr(), std::ptr::addr_of_mut!(CASE_NAME) as *mut u8, n);
-        CASE_NAME_LEN.store(n, Ordering::Relaxed);
-        let m = input.len().min(CASE_CAP);
-        std::ptr::copy_nonoverlapping(input.as_ptr(), std::ptr::addr_of_mut!(CASE_INPUT) as *mut u8, m);
-        CASE_INPUT_LEN.store(m, Ordering::Relaxed);
-    }
+    let _ = CASE.try_with(|c| c.set((name.as_ptr() as usize, name.len(), input.as_ptr() as usize, input.len())));
+}
+
+pub fn clear_case() {
+    let _ = CASE.try_with(|c| c.set((0, 0, 0, 0)));
 }
 
 fn raw_write(b: &[u8]) {
@@ -119,12 +115,13 @@ pub fn crash(reason: &str) -> ! {
     raw_write(b"\nCRASH ");
     raw_write(reason.as_bytes());
     raw_write(b" type=");
+    let (np, nl, ip, il) = CASE.try_with(|c| c.get()).unwrap_or((0, 0, 0, 0));
     unsafe {
-        let n = CASE_NAME_LEN.load(Ordering::Relaxed);
-        raw_write(std::slice::from_raw_parts(std::ptr::addr_of!(CASE_NAME) as *const u8, n));
+        if np != 0 {
+            raw_write(std::slice::from_raw_parts(np as *const u8, nl));
+        }
         raw_write(b" input=");
-        let m = CASE_INPUT_LEN.load(Ordering::Relaxed);
-        let inp = std::slice::from_raw_parts(std::ptr::addr_of!(CASE_INPUT) as *const u8, m);
+        let inp: &[u8] = if ip != 0 { std::slice::from_raw_parts(ip as *const u8, il.min(1 << 16)) } else { &[] };
         let hexd = b"0123456789abcdef";
         let mut buf = [0u8; 512];
         for chunk in inp.chunks(256) {
@@ -207,6 +204,48 @@ impl Ctx {
     }
 }
 
+/// Work units of a worker: one closure per type, run on a thread pool, each with a `Ctx` of
+/// its own; the results are merged.
+pub struct Tasks {
+    pub tier: Tier,
+    pub seed: u64,
+    pub list: Vec<Box<dyn FnOnce(&mut Ctx) + Send>>,
+}
+
+impl Tasks {
+    pub fn new(tier: Tier, seed: u64) -> Tasks { Tasks { tier, seed, list: vec![] } }
+
+    pub fn add(&mut self, f: impl FnOnce(&mut Ctx) + Send + 'static) { self.list.push(Box::new(f)); }
+
+    pub fn run(self) -> Ctx {
+        use rayon::prelude::*;
+        let (tier, seed) = (self.tier, self.seed);
+        let parts: Vec<Ctx> = self
+            .list
+            .into_par_iter()
+            .map(|f| {
+                let mut c = Ctx::new(tier, seed);
+                f(&mut c);
+                clear_case();
+                c
+            })
+            .collect();
+        let mut out = Ctx::new(tier, seed);
+        for p in parts {
+            out.evals += p.evals;
+            out.traces += p.traces;
+            for (k, v) in p.outcomes {
+                *out.outcomes.entry(k).or_insert(0) += v;
+            }
+            for ((k, t), (s, w, d)) in p.violations {
+                out.violation(&k, &t, s, w, d);
+            }
+            out.extra.extend(p.extra);
+        }
+        out
+    }
+}
+
 // ---------------------------------------------------------------------------------------
 // the sweep
 // ---------------------------------------------------------------------------------------
@@ -227,6 +266,9 @@ pub struct Codec<'a, T> {
     pub alloc_factor: usize,
     /// also feed every byte string of length <= 2
     pub short_inputs: bool,
+    /// relative cost of one decode (1 = microseconds); in the quick tier the neighbourhood
+    /// of a value is strided so that it stays within 150000 / cost probes
+    pub cost: usize,
 }
 
 pub fn flip(bytes: &[u8], bit: usize) -> Vec<u8> {
@@ -325,7 +367,10 @@ pub fn sweep<T>(ctx: &mut Ctx, c: &Codec<T>, values: &[T]) {
         }
         // every proper prefix
         let offs = offsets(e.len());
-        for &k in &offs {
+        // quick tier: keep the neighbourhood of one value within the probe budget
+        let planned = offs.len() * 30;
+        let thin = if quick { planned.div_ceil(150_000 / c.cost.max(1)).max(1) } else { 1 };
+        for &k in offs.iter().step_by(thin) {
             if let Some((_, n)) = probe(ctx, c, "truncation", &e[..k]) {
                 if n > k {
                     ctx.violation("decoder-reports-more-bytes-than-given", c.name, k, json!({"type": c.name, "input": hex::encode(&e[..k])}), json!({}));
@@ -334,13 +379,14 @@ pub fn sweep<T>(ctx: &mut Ctx, c: &Codec<T>, values: &[T]) {
         }
         // every single-bit flip (quick: values beyond the third of a type are strided)
         let stride = if quick && vi >= 3 { 7 } else { 1 };
-        for bit in offs.iter().flat_map(|o| (0..8).map(move |b| o * 8 + b)).step_by(stride) {
+        // (an odd multiple keeps all eight bit positions in play)
+        for bit in offs.iter().flat_map(|o| (0..8).map(move |b| o * 8 + b)).step_by(stride * (2 * thin - 1)) {
             probe(ctx, c, "bit flip", &flip(&e, bit));
         }
         // every aligned-or-not field of width 1, 2, 4, 8 set to 0, all-ones, +1, -1
         // (length, tag, bitmap and count fields are big-endian integers of these widths)
         let fstride = if quick && vi >= 3 { 5 } else { 1 };
-        for &off in offs.iter().step_by(fstride) {
+        for &off in offs.iter().step_by(fstride * thin) {
             for wdt in [1usize, 2, 4, 8] {
                 if off + wdt > e.len() {
                     continue;
@@ -361,7 +407,7 @@ pub fn sweep<T>(ctx: &mut Ctx, c: &Codec<T>, values: &[T]) {
         }
         // a byte removed / duplicated at every offset
         let dstride = if quick { 3 } else { 1 };
-        for &off in offs.iter().step_by(dstride) {
+        for &off in offs.iter().step_by(dstride * thin) {
             let mut x = e.clone();
             x.remove(off);
             probe(ctx, c, "byte removed", &x);
